@@ -15,7 +15,7 @@ order the specification gives."""
 from concurrent.futures import ThreadPoolExecutor
 from ..common import *
 
-LEVEL = "model_checked"
+LEVEL = "model_checking"
 ANSI = re.compile(r"\x1b\[[0-9;]*m")
 
 
